@@ -491,10 +491,23 @@ def analyse_injectbounce(db, rep):
 
 # =============================================================================== del_dochan
 class DelHooks(SendHooks):
-    def materialize(self, E, path):
-        if path in ('G:dline[0].s[1]', 'G:dline[1].s[1]'):
-            return TOP
-        return TOP
+    tracked = frozenset(['G:tododir', 'G:flagexitasap', 'G:dline', 'G:todoline', 'G:flagcleanup', 'G:concurrency', 'G:d'])
+    CONC = 2       # configured concurrency in the explored geometry
+
+    def materialize_split(self, E, path):
+        if path.startswith('G:d[') and path.endswith('.used'):
+            return [fs(0), fs(1)]
+        return None
+
+    def slot_ok(self, E, x, what):
+        """the report's delivery number names a slot below concurrency[c] that is in use"""
+        c = g1(E, 'del_dochan::P:c')
+        b = g1(E, '$delbyte')
+        num = b & 255 if isinstance(b, int) else None
+        used = g1(E, 'G:d[%s][%s].used' % (c, num)) if num is not None else None
+        ok = num is not None and 0 <= num < self.CONC and used == 1
+        self.site('del:state-changes-only-for-an-in-range-delivery-slot-in-use', x, ok,
+                  '%s for delivery number %s (concurrency %d) with used=%s: a forged or stale report changes a recipient\'s state' % (what, num, self.CONC, used), E)
 
     def prim_read(self, E, x, args):
         return [Outcome(ret=fs(-1)), Outcome(ret=fs(0)), Outcome(ret=fs(7))]
@@ -528,6 +541,7 @@ class DelHooks(SendHooks):
 
     def prim_markdone(self, E, x, args):
         self.count('mark')
+        self.slot_ok(E, x, 'markdone()')
         L0 = g1(E, '$letter')
         dying = g1(E, '$dying')
         ok = L0 in ('K', 'D') or (L0 == 'Z' and dying == 1)
@@ -542,6 +556,7 @@ class DelHooks(SendHooks):
 
     def prim_addbounce(self, E, x, args):
         self.count('bounce')
+        self.slot_ok(E, x, 'addbounce()')
         L0 = g1(E, '$letter')
         dying = g1(E, '$dying')
         self.site('del:bounce-only-for-D-(Z-when-expired)', x, L0 == 'D' or (L0 == 'Z' and dying == 1), 'addbounce() for a report %r (flagdying=%s)' % (L0, dying), E)
@@ -549,6 +564,7 @@ class DelHooks(SendHooks):
         return [Outcome(ret=TOP, log='addbounce')]
 
     def prim_job_close(self, E, x, args):
+        self.slot_ok(E, x, 'job_close()')
         L0 = g1(E, '$letter')
         dying = g1(E, '$dying')
         must_mark = L0 in ('K', 'D') or (L0 == 'Z' and dying == 1)
@@ -565,6 +581,7 @@ class DelHooks(SendHooks):
 
     def on_assign(self, E, x, path, val):
         if path.endswith('.numtodo'):
+            self.slot_ok(E, x, '--numtodo')
             E.set('$dec', fs(min(g1(E, '$dec', 0) + 1, 2)))
         if path.endswith('.used') and val == fs(0):
             self.site('del:slot-freed-only-after-job_close', x, g1(E, '$closed', 0) == 1, 'delivery slot freed without job_close()', E)
@@ -588,21 +605,19 @@ def analyse_del_dochan(db, rep):
     counts = {}
     for c in (0, 1):
         for letter in ('K', 'Z', 'D', 'x'):
-            H = DelHooks()
-            eng = Engine(db, prog, H)
-            # the letter is a fact about the input; it is re-established every time the report
-            # switch is reached because dline[c].s[1] is only written by the code in the Z->D rewrite
-            st = {'del_dochan::P:c': fs(c), 'G:dline[%d].s[1]' % c: fs(ord(letter)), '$letter': fs(letter)}
-
-            class LH(DelHooks):
-                pass
-            eng.run(fn, st)
-            rep.count_states(eng.states, eng.transitions)
-            for k, v in H.sites.items():
-                if k not in sites or (sites[k][0] and not v[0]):
-                    sites[k] = v
-            for k, v in H.counts.items():
-                counts[k] = counts.get(k, 0) + v
+            for delbyte in (0, 1, 2, -56):          # delivery numbers 0, 1 (in range), 2, 200 (out of range)
+                H = DelHooks()
+                eng = Engine(db, prog, H, max_states=300000)
+                # the letter and the delivery number are facts about the input
+                st = {'del_dochan::P:c': fs(c), 'G:dline[%d].s[1]' % c: fs(ord(letter)), '$letter': fs(letter),
+                      'G:dline[%d].s[0]' % c: fs(delbyte), '$delbyte': fs(delbyte), 'G:concurrency[%d]' % c: fs(DelHooks.CONC)}
+                eng.run(fn, st)
+                rep.count_states(eng.states, eng.transitions)
+                for k, v in H.sites.items():
+                    if k not in sites or (sites[k][0] and not v[0]):
+                        sites[k] = v
+                for k, v in H.counts.items():
+                    counts[k] = counts.get(k, 0) + v
     if counts.get('mark', 0) < 2 or counts.get('bounce', 0) < 1 or counts.get('job_close', 0) < 3:
         if all(v[0] for v in sites.values()):
             raise AnalysisBroken('del_dochan: markdone/addbounce/job_close not explored (%s)' % counts)
